@@ -117,7 +117,7 @@ func (eng *Engine) targetsFor(prop string) ([]checkTarget, []string) {
 	keys := sortedKeys(eng.contracts.Funcs)
 	for _, full := range keys {
 		fc := eng.contracts.Funcs[full]
-		if !hasProp(fc.Props, prop) || fc.Trusted {
+		if !(hasProp(fc.Props, prop) || fc.clauseMentions(prop)) || fc.Trusted {
 			continue
 		}
 		if strings.HasPrefix(fc.Key, "(") && strings.Contains(fc.Key, "iface:") {
